@@ -371,6 +371,8 @@ def run(ctx):
     else:
         ctx.viol("J3", _imp, _imp.node, "__import does not return (self.dictimporter or DictImporter()).import_(<parsed data>)", construct="JsonImporter.__import")
     rule_optint_truthiness(ctx, typer, {JE, JI}, rule="J3")
+    from .c10 import rule_children_all_imported
+    rule_children_all_imported(ctx, typer, "J2")
     if ctx.extra.get("undecided") and not ctx.new_findings():
         raise AnalysisError("C11 " + "; ".join(ctx.extra["undecided"][:2]))
     ctx.floor("J1", 6)
